@@ -61,7 +61,7 @@ PROPS = {
         assumptions=[],
     ),
     "C02": dict(
-        units=["implied", "replica"],
+        units=["implied", "replica", "leader"],
         level="proof",
         level_text="Deductive proof (Verus), one-step form of the property. On the real text: TimeoutQC::high_vote returns exactly THE "
                    "header whose reporters' weight reaches n-3f (None if there is none or more than one), computed without overflow for "
@@ -81,7 +81,7 @@ PROPS = {
         assumptions=[],
     ),
     "C08": dict(
-        units=["blockstore"],
+        units=["blockstore", "leader"],
         level="proof",
         level_text="Deductive proof (Verus) over the real text of BlockStore::{block, try_push, update_persisted, truncate_cache}, "
                    "BlockStoreState::{contains, head, next, verify}, Last::{number, from}, Block::number, BlockNumber::{next, prev} and "
@@ -181,7 +181,7 @@ PROPS = {
         assumptions=[],
     ),
     "C05": dict(
-        units=["replica"],
+        units=["replica", "leader"],
         level="proof",
         level_text="Deductive proof (Verus) over the real handler text: (monotone) view number, highest commit certificate view and highest "
                    "timeout certificate view never decrease in any handler, on success or error; certificates are adopted iff strictly newer "
@@ -229,7 +229,7 @@ PROPS = {
         assumptions=[],
     ),
     "C16": dict(
-        units=["replica", "prune"],
+        units=["replica", "prune", "leader"],
         level="proof",
         level_text="Channel half and vote-cache half, unbounded. Deductive proof (Verus) over the real text of bft::inbound_selection_function, "
                    "inbound_filter_predicate, ConsensusMsg/ChonkyMsg::view_number (unit replica) and of prunable_mpsc::Sender::send with its "
